@@ -26,6 +26,8 @@
 (*                        this; remove then leaves one entry behind)       *)
 (*   DevRemoveKeepsAllow  remove forgets the allow list                    *)
 (*   DevWildcardNoDot     "*.x" compared as a plain string suffix          *)
+(*   DevDefaultRouteAnyFamily  a /0 entry of either family permits every   *)
+(*                        address of both families                         *)
 (*   DevForwardPrefixMatch, DevForwardCaseFold  (part 2)                   *)
 (*                                                                         *)
 (* Part 2 (C20) is at the end: the forward key universe as VEC records.    *)
@@ -39,17 +41,24 @@ CONSTANTS Dev,       \* enabled deviations
           Metrics,   \* metrics used by add / update
           CfgNames,  \* configurations explored (subset of DOMAIN Configs)
           MaxAllow,  \* bound on Len(allow) (only reached under deviations)
-          ProbeOnly  \* TRUE: Open only for the probe destinations (history mode)
+          ProbeOnly, \* TRUE: Open only for the probe destinations (history mode)
+          NetSet     \* networks that can be added / removed dynamically (subset of AllNets)
 
-DevNames == {"DevDuplicateOnReAdd", "DevRemoveKeepsAllow", "DevWildcardNoDot",      \* C19
-             "DevForwardPrefixMatch", "DevForwardCaseFold"}                       \* C20
+DevNames == {"DevDuplicateOnReAdd", "DevRemoveKeepsAllow", "DevWildcardNoDot", "DevDefaultRouteAnyFamily",   \* C19
+             "DevForwardPrefixMatch", "DevForwardCaseFold",                                                \* C20
+             "DevPendingBySidOnly", "DevResolveCacheByHost"}                                               \* C20 (open steps)
 ASSUME Dev \subseteq DevNames
 
-Nets == {"n1", "n2", "n3"}
-NetCIDR == [n1 |-> "127.1.0.0/16", n2 |-> "127.1.2.0/24", n3 |-> "::1/128"]
-\* address keys ("none" = the name does not resolve)
-IPAddr == [i2 |-> "127.1.2.3", i1 |-> "127.1.9.9", i0 |-> "127.9.9.9", i6 |-> "::1", il |-> "127.0.0.1"]
-Covers == [n1 |-> {"i1", "i2"}, n2 |-> {"i2"}, n3 |-> {"i6"}]
+\* n4 / n6 are the default routes of the two address families: a network contains addresses of ITS family only
+AllNets == {"n1", "n2", "n3", "n4", "n6"}
+ASSUME NetSet \subseteq AllNets
+Nets == NetSet
+NetCIDR == [n1 |-> "127.1.0.0/16", n2 |-> "127.1.2.0/24", n3 |-> "::1/128", n4 |-> "0.0.0.0/0", n6 |-> "::/0"]
+\* address keys ("none" = the name does not resolve); i7 is an IPv6 address no listener can be bound to
+IPAddr == [i2 |-> "127.1.2.3", i1 |-> "127.1.9.9", i0 |-> "127.9.9.9", i6 |-> "::1", il |-> "127.0.0.1", i7 |-> "fd00::9"]
+Unbound == {"i7"}
+\* membership table (family-aware: an IPv4 address -- also in its IPv4-mapped IPv6 form -- lies in IPv4 networks only)
+Covers == [n1 |-> {"i1", "i2"}, n2 |-> {"i2"}, n3 |-> {"i6"}, n4 |-> {"i0", "i1", "i2", "il"}, n6 |-> {"i6", "i7"}]
 
 \* domain patterns (labels are lower case; a pattern "*.wild.test" is [wild |-> TRUE, labels |-> <<"wild","test">>])
 Patterns == [pApi   |-> [wild |-> FALSE, labels |-> <<"api", "corp", "test">>, text |-> "api.corp.test"],
@@ -60,7 +69,12 @@ Configs ==
   [c0 |-> [enabled |-> TRUE,  nets |-> <<>>,           doms |-> {}],
    c1 |-> [enabled |-> FALSE, nets |-> <<>>,           doms |-> {}],
    c2 |-> [enabled |-> TRUE,  nets |-> <<"n1">>,       doms |-> {"pApi", "pWild", "pLocal"}],
-   c3 |-> [enabled |-> TRUE,  nets |-> <<"n2", "n3">>, doms |-> {}]]
+   c3 |-> [enabled |-> TRUE,  nets |-> <<"n2", "n3">>, doms |-> {}],
+   \* a default route of one address family only, alone and next to a narrow network of the other family
+   c4 |-> [enabled |-> TRUE,  nets |-> <<"n4">>,       doms |-> {}],
+   c5 |-> [enabled |-> TRUE,  nets |-> <<"n6">>,       doms |-> {}],
+   c6 |-> [enabled |-> TRUE,  nets |-> <<"n4", "n3">>, doms |-> {}],
+   c7 |-> [enabled |-> TRUE,  nets |-> <<"n6", "n2">>, doms |-> {}]]
 
 (* Destinations of crafted STREAM_OPEN requests.                            *)
 (*   kind  v4 / v6 : address type IPv4 / IPv6 (16 bytes; "mapped" = IPv4-mapped IPv6)                     *)
@@ -74,6 +88,9 @@ Dests ==
    d6lo    |-> [kind |-> "v6",  addr |-> "::1",                ip |-> "i6",   lit |-> FALSE, labels |-> <<>>, nodot |-> FALSE],
    d6map2  |-> [kind |-> "v6",  addr |-> "::ffff:127.1.2.3",   ip |-> "i2",   lit |-> FALSE, labels |-> <<>>, nodot |-> FALSE],
    d6map0  |-> [kind |-> "v6",  addr |-> "::ffff:127.9.9.9",   ip |-> "i0",   lit |-> FALSE, labels |-> <<>>, nodot |-> FALSE],
+   d6ula   |-> [kind |-> "v6",  addr |-> "fd00::9",            ip |-> "i7",   lit |-> FALSE, labels |-> <<>>, nodot |-> FALSE],
+   nV6only |-> [kind |-> "dom", addr |-> "v6only.test",        ip |-> "i6",   lit |-> FALSE, labels |-> <<"v6only", "test">>, nodot |-> FALSE],
+   nLit6   |-> [kind |-> "dom", addr |-> "fd00::9",            ip |-> "i7",   lit |-> TRUE,  labels |-> <<>>, nodot |-> FALSE],
    nApi    |-> [kind |-> "dom", addr |-> "api.corp.test",      ip |-> "i0",   lit |-> FALSE, labels |-> <<"api", "corp", "test">>, nodot |-> FALSE],
    nApiUC  |-> [kind |-> "dom", addr |-> "API.Corp.Test",      ip |-> "i0",   lit |-> FALSE, labels |-> <<"api", "corp", "test">>, nodot |-> FALSE],
    nApiEv  |-> [kind |-> "dom", addr |-> "api.corp.test.evil.test", ip |-> "i0", lit |-> FALSE,
@@ -91,7 +108,7 @@ Dests ==
    nLit2   |-> [kind |-> "dom", addr |-> "127.1.2.3",          ip |-> "i2",   lit |-> TRUE,  labels |-> <<>>, nodot |-> FALSE]]
 
 DestIds  == DOMAIN Dests
-ProbeIds == {"d4in2", "d4in1", "d4out", "d6lo", "d6map2", "nPlain"}
+ProbeIds == {"d4in2", "d4in1", "d4out", "d6lo", "d6map2", "d6ula", "nPlain"}
 OpenIds  == IF ProbeOnly THEN ProbeIds ELSE DestIds
 
 ASSUME CfgNames \subseteq DOMAIN Configs
@@ -101,9 +118,10 @@ VARIABLES cfg,      \* name of the configuration
           allow,    \* Seq(Nets)
           handler,  \* BOOLEAN
           hist,     \* route operations so far (only maintained when Hist)
-          last      \* observation of the last step (hidden by VIEW)
+          last,     \* observation of the last step (hidden by VIEW)
+          fw        \* state of the forward handler's open steps (part 2; constant in part 1)
 
-vars  == <<cfg, dyn, allow, handler, hist, last>>
+vars  == <<cfg, dyn, allow, handler, hist, last, fw>>
 view  == <<cfg, dyn, allow, handler, hist>>
 
 C == Configs[cfg]
@@ -118,6 +136,7 @@ Init ==
   /\ handler = Configs[cfg].enabled
   /\ hist = <<>>
   /\ last = [act |-> "Init"]
+  /\ fw = [pend |-> {}, tab |-> <<>>, cache |-> <<>>, conns |-> {}, n |-> 0]
 
 RemoveFirst(s, x) ==
   IF \E i \in 1..Len(s) : s[i] = x
@@ -190,7 +209,9 @@ MatchImpl(d, p) ==
 DomainAllowedImpl(d) == d.kind = "dom" /\ ~d.lit /\ \E p \in C.doms : MatchImpl(d, Patterns[p])
 
 \* isAllowed: some entry of the list contains the address (empty list -> deny)
-ListAllows(ip) == \E i \in 1..Len(allow) : ip \in Covers[allow[i]]
+DefaultRoutes == {"n4", "n6"}
+ListAllows(ip) == \/ \E i \in 1..Len(allow) : ip \in Covers[allow[i]]
+                  \/ "DevDefaultRouteAnyFamily" \in Dev /\ \E i \in 1..Len(allow) : allow[i] \in DefaultRoutes
 
 \* outcome of HandleStreamOpen:  "none" no handler, no reply ;  "fail" resolution failed ;
 \* "dial" outbound connection attempted ; "refuse" STREAM_OPEN_ERR not-allowed
@@ -219,11 +240,12 @@ Open(id) ==
               ip |-> Dests[id].ip, res |-> OpenResult(Dests[id]), permitted |-> Permitted(Dests[id])]
 
 Next ==
-  \/ \E n \in Nets, m \in Metrics : AddDyn(n, m) \/ UpdateDyn(n, m)
-  \/ \E n \in Nets : RemoveDyn(n)
-  \/ ListDyn
-  \/ \E k \in {"add-bad-cidr", "remove-bad-cidr", "unknown-action"} : BadRequest(k)
-  \/ \E id \in DestIds : Open(id)
+  /\ \/ \E n \in Nets, m \in Metrics : AddDyn(n, m) \/ UpdateDyn(n, m)
+     \/ \E n \in Nets : RemoveDyn(n)
+     \/ ListDyn
+     \/ \E k \in {"add-bad-cidr", "remove-bad-cidr", "unknown-action"} : BadRequest(k)
+     \/ \E id \in DestIds : Open(id)
+  /\ UNCHANGED fw
 
 Spec == Init /\ [][Next]_vars
 
@@ -233,7 +255,7 @@ Bound == Len(allow) <= MaxAllow
 TypeOK ==
   /\ cfg \in CfgNames
   /\ dyn \in [Nets -> {0} \cup Metrics]
-  /\ Range(allow) \subseteq Nets
+  /\ Range(allow) \subseteq AllNets
   /\ handler \in BOOLEAN
 
 \* C19: a dial only to a permitted destination
@@ -249,7 +271,7 @@ PresentUsable == \A n \in DynNets : \A id \in DestIds :
                     (Dests[id].ip # "none" /\ Dests[id].ip \in Covers[n]) => OpenResult(Dests[id]) = "dial"
 
 \* the concrete universe, for the harness
-ASSUME Emit => PrintT("META " \o ToJson([nets |-> NetCIDR, covers |-> Covers, ips |-> IPAddr, dests |-> Dests,
+ASSUME Emit => PrintT("META " \o ToJson([nets |-> NetCIDR, covers |-> Covers, ips |-> IPAddr, unbound |-> Unbound, dests |-> Dests,
                                          patterns |-> Patterns, configs |-> Configs]))
 
 EmitEdge ==
@@ -335,6 +357,70 @@ FwdInit == /\ Init
            /\ (Dev = {}) => \A v \in FwdVecs : PrintT("VEC " \o ToJson(v))
            /\ PrintT("FSUM " \o ToJson([vecs |-> Cardinality(FwdVecs), agree |-> FwdAgree, nonvacuous |-> FwdNonVacuous]))
 FwdNext == FALSE /\ UNCHANGED vars
+
+(***************************************************************************)
+(* Part 2b (C20): a forward open is TWO steps of forward.Handler --         *)
+(*   FAccept  HandleStreamOpen, on the peer's frame loop: the key is looked *)
+(*            up, the request is accepted and a dial goroutine is started   *)
+(*   FDial    the goroutine connects to the target and acknowledges         *)
+(* and requests of DIFFERENT peers may carry the SAME stream id (stream ids *)
+(* are allocated per peer connection), so a request is identified by        *)
+(* <<peer, stream id>>.  Targets are <<host, port>>; several endpoints may  *)
+(* share a host.  The handler lives on between requests (fw is its state),  *)
+(* so sequences of requests on one handler are behaviours of this machine.  *)
+(*   DevPendingBySidOnly    the accepted request is parked in a table keyed *)
+(*                          by the bare stream id and the dial step reads   *)
+(*                          key/target back from it                         *)
+(*   DevResolveCacheByHost  the dial step caches host -> resolved host:port *)
+(*                          and reuses it for every target on that host     *)
+(***************************************************************************)
+FPeers == {"p1", "p2"}
+FSids  == {1, 2}
+FEndpoints == [alpha |-> [host |-> "h1", port |-> 1], beta |-> [host |-> "h1", port |-> 2],
+               gamma |-> [host |-> "h2", port |-> 1], delta |-> [host |-> "h2", port |-> 2]]
+FKeys == DOMAIN FEndpoints
+FReqKeys == FKeys \cup {"nokey"}
+FMax == 3      \* requests per behaviour
+
+FAccept(p, sid, k) ==
+  /\ fw.n < FMax /\ k \in FKeys
+  /\ ~\E r \in fw.pend : r.peer = p /\ r.sid = sid
+  /\ fw' = [fw EXCEPT !.pend = @ \cup {[peer |-> p, sid |-> sid, key |-> k]},
+                      !.tab = [x \in (DOMAIN fw.tab) \cup {sid} |-> IF x = sid THEN k ELSE fw.tab[x]],
+                      !.n = @ + 1]
+FRefuse(p, sid, k) ==         \* unknown key: not-found error, nothing else happens
+  /\ fw.n < FMax /\ k \notin FKeys
+  /\ fw' = [fw EXCEPT !.n = @ + 1]
+FDial(r) ==
+  /\ r \in fw.pend
+  /\ LET k == IF "DevPendingBySidOnly" \in Dev
+                 THEN (IF r.sid \in DOMAIN fw.tab THEN fw.tab[r.sid] ELSE "dropped")
+                 ELSE r.key
+     IN IF k = "dropped"
+          THEN fw' = [fw EXCEPT !.pend = @ \ {r}]
+          ELSE LET ep == FEndpoints[k]
+                   cached == "DevResolveCacheByHost" \in Dev /\ ep.host \in DOMAIN fw.cache
+                   port == IF cached THEN fw.cache[ep.host] ELSE ep.port
+               IN fw' = [fw EXCEPT !.pend = @ \ {r},
+                                   !.tab = [x \in (DOMAIN fw.tab) \ (IF "DevPendingBySidOnly" \in Dev THEN {r.sid} ELSE {}) |-> fw.tab[x]],
+                                   !.cache = IF "DevResolveCacheByHost" \in Dev /\ ~cached
+                                               THEN [h \in (DOMAIN fw.cache) \cup {ep.host} |-> IF h = ep.host THEN ep.port ELSE fw.cache[h]]
+                                               ELSE @,
+                                   !.conns = @ \cup {[peer |-> r.peer, sid |-> r.sid, key |-> r.key, host |-> ep.host, port |-> port]}]
+FwdOpenNext ==
+  /\ \/ \E p \in FPeers, sid \in FSids, k \in FReqKeys : FAccept(p, sid, k) \/ FRefuse(p, sid, k)
+     \/ \E r \in fw.pend : FDial(r)
+  /\ UNCHANGED <<cfg, dyn, allow, handler, hist, last>>
+fwview == fw
+\* C20: every connection made for a request goes to the target configured for the REQUESTED key
+FwdConnOK == \A c \in fw.conns : c.host = FEndpoints[c.key].host /\ c.port = FEndpoints[c.key].port
+\* request sequences for ONE live handler (executed in order by the harness): all sequences of <= FSeqLen requests
+FSeqLen == 4
+FwdSeqs == UNION {[1..m -> FReqKeys] : m \in 1..FSeqLen}
+FwdSeqInit == /\ Init
+              /\ PrintT("FEND " \o ToJson(FEndpoints))
+              /\ \A q \in FwdSeqs : PrintT("FSEQ " \o ToJson(q))
+              /\ PrintT("FQSUM " \o ToJson([seqs |-> Cardinality(FwdSeqs)]))
 \* (mentions a variable so that TLC treats it as a state invariant of the one-state behaviour FwdInit)
 FwdOK == cfg \in CfgNames /\ FwdAgree /\ FwdNonVacuous
 =============================================================================
